@@ -232,3 +232,52 @@ func TestCapacityChains(t *testing.T) {
 		ev.ExtraAdd("hits", int64(r.Hits))
 	})
 }
+
+// A key that enters the cache in a block of more than 8192 keys (a bulk load), is rewritten by a few later blocks and
+// looked up at old and new blocks in a drawn order: far fewer than 200 entries per key, so every hit must be the chain's
+// value, and a lookup at a block that wrote the key must find that write.
+func TestKeyBornInABulkBlock(t *testing.T) {
+	ev.Rapid(t, 2, 20)
+	rapid.Check(t, func(rt *rapid.T) {
+		sc := statecache.NewStateCache()
+		nfill := gen.Uniform(rt, 8200, 9500, "nfill")
+		n := gen.Uniform(rt, 18, 40, "nblocks")
+		truth := make([]string, n) // value of "hot" visible at block i
+		wrote := make([]bool, n)
+		for i := 0; i < n; i++ {
+			prev := ""
+			if i > 0 {
+				prev = fmt.Sprintf("G%d", i-1)
+				truth[i] = truth[i-1]
+			}
+			bc := statecache.NewBlockCache(sc, statecache.Block{Round: int64(i), Hash: fmt.Sprintf("G%d", i), PrevHash: prev})
+			tc := statecache.NewTransactionCache(bc)
+			if i == 0 {
+				for f := 0; f < nfill; f++ {
+					tc.Set(fmt.Sprintf("fill%d", f), statecache.String("f"))
+				}
+			}
+			if i <= 1 || gen.Chance(rt, 15, "rewrite") {
+				truth[i] = fmt.Sprintf("hot%d", i)
+				wrote[i] = true
+				tc.Set("hot", statecache.String(truth[i]))
+			}
+			tc.Commit()
+			bc.Commit()
+		}
+		for q := gen.Uniform(rt, 40, 90, "nlookups"); q > 0; q-- {
+			i := gen.Uniform(rt, 0, n-1, "at")
+			if gen.Chance(rt, 30, "old") {
+				i = gen.Uniform(rt, 0, 2, "atold")
+			}
+			v, ok := sc.Get("hot", fmt.Sprintf("G%d", i))
+			if ok && string(v.(statecache.String)) != truth[i] {
+				rt.Fatalf("key born in a block of %d keys, chain of %d blocks: lookup hot@G%d hit %q, the chain says %q", nfill+1, n, i, string(v.(statecache.String)), truth[i])
+			}
+			if !ok && wrote[i] {
+				rt.Fatalf("key born in a block of %d keys: lookup hot@G%d misses although G%d itself wrote it (the key has fewer than %d entries)", nfill+1, i, i, n+90)
+			}
+		}
+		ev.Case(fmt.Sprintf("bulk/%d/%d", nfill, n), true, "key-born-in-a-block-of-more-than-8192-keys")
+	})
+}
